@@ -350,7 +350,9 @@ class stDAG(AbstractSourceSinkGraph):
                 break
 
             for i in range(len(path) - 1):
-                temp_G[path[i]][path[i + 1]][flow_attr] -= bottleneck
+                # (a new value, not `-=`: the copy above shares the value objects with the caller's graph, and an in-place
+                # subtraction on a mutable number - a 0-dimensional numpy array - would change the caller's flow values)
+                temp_G[path[i]][path[i + 1]][flow_attr] = temp_G[path[i]][path[i + 1]][flow_attr] - bottleneck
 
             paths.append(path)
             weights.append(bottleneck)
